@@ -59,7 +59,7 @@ func init() {
 			"Total-size pruning of old WAL files (checkTotalSizeLimit) is switched off; writer restarts on an existing log are not generated.",
 			"CRC32C detects every single-byte change; the oracle does not rely on it, but an undetected change that decodes to an unwritten message would be reported as a violation (probability 2^-32 per length-field change).",
 		},
-		QuickRuns: 176, QuickBudget: 55 * time.Second,
+		QuickRuns: 160, QuickBudget: 55 * time.Second,
 		ThoroughRuns: 4000, ThoroughBudget: 18 * time.Minute,
 		RunsPerProcess: 60,
 		RunTimeout:     300 * time.Second,
@@ -131,7 +131,7 @@ func (g *gen) next() *rec {
 	if g.bigPart {
 		wPart = 45
 	}
-	switch t.Pick(14, 10, wPart, 30, 12, 10, 6) {
+	switch t.Pick(14, 10, wPart, 30, 12, 10, 8) {
 	case 0: // step event
 		return &rec{Kind: "roundstate", Msg: types.EventDataRoundState{Height: g.h, Round: g.round, Step: steps[t.Int(len(steps))].String()}}
 	case 1: // proposal
@@ -337,6 +337,24 @@ func run(c *kernel.Ctx) {
 			r.Own = true
 		}
 		recs = append(recs, r)
+	}
+	// the node ends every height with a marker: make sure there is one besides the initial one
+	hasMarker := false
+	for _, r := range recs[1:] {
+		hasMarker = hasMarker || r.Kind == "endheight"
+	}
+	if !hasMarker {
+		i := 1 + cfg.Int(len(recs)-1)
+		h := g.h
+		for _, r := range recs[i:] {
+			// later records belong to the next height
+			switch m := r.Msg.(type) {
+			case types.EventDataRoundState:
+				m.Height = h + 1
+				r.Msg = m
+			}
+		}
+		recs[i] = &rec{Kind: "endheight", Own: true, Height: h, Msg: cs.EndHeightMessage{Height: h}}
 	}
 	for _, r := range recs {
 		r.sleep = []time.Duration{0, 0, 1, 999, time.Millisecond, 20 * time.Millisecond, time.Second, 5 * time.Second}[sched.Int(8)]
